@@ -102,7 +102,8 @@ def generate(seed, mode="c15", opts=None):
     ops.append(["export"])
     ops.append(["netlist", "spice"])
     ops.append(["netlist", "spectre"])
-    return {"profile": "pdk", "mode": mode, "seed": seed, "target": target, "mods": mods, "ops": ops, "sched": [ch.pick(seams.POLICIES, "policy"), 0]}
+    twin = ch.chance(1, 4)  # a second design with the same module names, compiled in the same call
+    return {"profile": "pdk", "mode": mode, "seed": seed, "target": target, "mods": mods, "twin": twin, "ops": ops, "sched": [ch.pick(seams.POLICIES, "policy"), 0]}
 
 
 def port_mismatch_keys(tb):
@@ -240,9 +241,12 @@ def _ext(h):
     return _EXT["x"]
 
 
-def build_design(h, scn, tb):
+def build_design(h, scn, tb, twin=False):
     mods, expects = [], {}
     for mid, spec in enumerate(scn["mods"]):
+        if twin and mid < len(scn["mods"]) - 1:
+            # the twin shares the leaf definitions' *names* but not the objects
+            pass
         m = h.Module(name=f"PM{mid}")
         m.vss = h.Port()
         nsig = 0
@@ -295,10 +299,13 @@ def execute(scn):
     tb = tables(target)
     try:
         mods, expects = build_design(h, scn, tb)
+        if scn.get("twin"):
+            tmods, texpects = build_design(h, scn, tb, twin=True)
     except Exception as e:  # noqa
         res["discard"] = f"design build failed: {interp.norm_exc(e)}"
         return res
     top = mods[-1]
+    groups = [(mods, expects)] + ([(tmods, texpects)] if scn.get("twin") else [])
     bogus = any(e.get("bogus") for e in expects.values())
     from hdl21.pdk import pdk as P
 
@@ -320,6 +327,8 @@ def execute(scn):
                 pname, via, what = op[1], op[2], op[3]
                 pm = pdk_module(pname)
                 src = top if what == "top" else (list(mods) if what == "list" else [mods[0], top] if len(mods) > 1 else top)
+                if scn.get("twin"):
+                    src = (src if isinstance(src, list) else [src]) + [tmods[-1]]
                 if isinstance(src, list):
                     seen, s2 = set(), []
                     for m_ in src:
@@ -327,7 +336,7 @@ def execute(scn):
                             seen.add(id(m_))
                             s2.append(m_)
                     src = s2
-                before = snapshot(mods)
+                before = [snapshot(g_[0]) for g_ in groups]
                 try:
                     if via == "default":
                         if len(P._mgr.modules) > 1 and P._mgr.default is not pm:
@@ -357,11 +366,16 @@ def execute(scn):
                     fail("compile-raised", f"{op}: {exc[0]}: {exc[1][:200]}")
                     break
                 probe(f"compiled:{pname}:{via}")
-                after = snapshot(mods)
+                after = [snapshot(g_[0]) for g_ in groups]
                 if bogus and pname == target and compiled_with is None:
                     fail("unsatisfiable-accepted", f"a request no device satisfies was compiled: {[e for e in expects.values() if e.get('bogus')]}")
                     break
-                check_compile(h, scn, mods, expects, before, after, pname if compiled_with is None else compiled_with, compiled_with is not None, fail, probe)
+                for gi, (gm, ge) in enumerate(groups):
+                    if res["findings"]:
+                        break
+                    check_compile(h, scn, gm, ge, before[gi], after[gi], pname if compiled_with is None else compiled_with, compiled_with is not None, fail, probe)
+                    if gi == 1:
+                        probe("twin_design_checked")
                 if compiled_with is None:
                     compiled_with = pname
                 compiled_ok = True
@@ -481,18 +495,21 @@ def check_compile(h, scn, mods, expects, before, after, pdkname, repeat, fail, p
 
 
 def _check_sizes(h, call, given, mid, iname, fail, probe):
+    """Sizes and multipliers given on the generic primitive reach the device."""
     p = call.params
     get = (lambda n: p.get(n)) if isinstance(p, dict) else (lambda n: getattr(p, n, None))
-    w, l = given.get("w"), given.get("l")
-    if w is not None and get("w") is not None:
-        if not _same_value(h, get("w"), w * h.prefix.µ):
-            fail("given-size-ignored", f"PM{mid}.{iname}: w={w}u requested, device has w={get('w')}")
+    for field, names, scale in (("w", ("w",), True), ("l", ("l",), True), ("nf", ("nf",), False), ("mult", ("mult", "m"), False)):
+        want = given.get(field)
+        if want is None:
+            continue
+        haves = [get(n) for n in names if get(n) is not None]
+        if not haves:
+            continue  # the device has no such parameter
+        target = want * h.prefix.µ if scale else want
+        if not any(_same_value(h, have, target) for have in haves):
+            fail("given-size-ignored", f"PM{mid}.{iname}: {field}={want}{'u' if scale else ''} requested, device has {field}={haves}")
             return
-        probe("given_size_used")
-    if l is not None and get("l") is not None:
-        if not _same_value(h, get("l"), l * h.prefix.µ):
-            fail("given-size-ignored", f"PM{mid}.{iname}: l={l}u requested, device has l={get('l')}")
-            return
+        probe("given_value_used:" + field)
 
 
 def _same_value(h, a, b):
